@@ -65,7 +65,11 @@ class Lexer:
         re.DOTALL,
     )
 
-    RE_PROPERTY = re.compile(r"[\u0080-\uFFFFa-zA-Z_][\u0080-\uFFFFa-zA-Z0-9_-]*")
+    # A hyphen is part of a name unless it is immediately followed by `}}` or `%}`,
+    # in which case it is whitespace control (`{{x-}}` is `{{ x -}}`).
+    RE_PROPERTY = re.compile(
+        r"[\u0080-\uFFFFa-zA-Z_](?:[\u0080-\uFFFFa-zA-Z0-9_]|-(?![}%]\}))*"
+    )
     RE_INDEX = re.compile(r"-?[0-9]+")
     ESCAPES = frozenset(["b", "f", "n", "r", "t", "u", "/", "\\", "$"])
 
@@ -99,7 +103,7 @@ class Lexer:
     }
 
     WORD: dict[str, str] = {
-        "WORD": r"[\u0080-\uFFFFa-zA-Z_][\u0080-\uFFFFa-zA-Z0-9_-]*",
+        "WORD": r"[\u0080-\uFFFFa-zA-Z_](?:[\u0080-\uFFFFa-zA-Z0-9_]|-(?![}%]\}))*",
     }
 
     KEYWORD_MAP: dict[str, TokenType] = {
